@@ -20,6 +20,7 @@ import (
 	"strings"
 
 	"golang.org/x/tools/go/ssa"
+	"sort"
 )
 
 type Monitor struct {
@@ -320,4 +321,74 @@ func (fc *FnCtx) chanRecv(st *State, reach string, ch Val, got Val, cond string)
 		env := fc.specEnv(st, nil, vars, con.Pkg, nil, cl.Text)
 		fc.sc.assume(tImp(tAnd(reach, cond), env.evalBool(cl.Expr)))
 	}
+}
+
+// monitorWriters lists, per monitor, the functions that store to a guarded
+// field and whether each is under contract (A-MON: the monitor argument covers
+// every interleaving only if all writers are verified).
+func (e *Engine) monitorWriters() map[string][]string {
+	out := map[string][]string{}
+	for _, m := range e.monitors {
+		seen := map[string]bool{}
+		for _, fn := range e.funcs {
+			for _, b := range fn.Blocks {
+				for _, ins := range b.Instrs {
+					st, ok := ins.(*ssa.Store)
+					if !ok {
+						continue
+					}
+					// collect the field path from the root *T
+					var names []string
+					var cur ssa.Value = st.Addr
+					rooted := false
+					freshRoot := false
+					for cur != nil {
+						switch a := cur.(type) {
+						case *ssa.FieldAddr:
+							pt, ok := a.X.Type().Underlying().(*types.Pointer)
+							if ok && structOf(pt.Elem()) != nil {
+								names = append([]string{structOf(pt.Elem()).Field(a.Field).Name()}, names...)
+								if types.Identical(pt.Elem(), m.rootType) {
+									rooted = true
+									_, freshRoot = a.X.(*ssa.Alloc)
+									cur = nil
+									continue
+								}
+							}
+							cur = a.X
+						case *ssa.IndexAddr:
+							cur = a.X
+						default:
+							cur = nil
+						}
+					}
+					if !rooted {
+						continue
+					}
+					p := strings.Join(names, ".")
+					for _, g := range m.Guards {
+						if p == g || strings.HasPrefix(p, g+".") {
+							top := fn
+							for top.Parent() != nil {
+								top = top.Parent()
+							}
+							status := "NOT under contract"
+							if c := e.contracts[top.String()]; c != nil {
+								status = "verified"
+							} else if freshRoot {
+								status = "constructor: store to an object allocated in the same function, before it can be shared"
+							}
+							key := shortFnName(top) + " (" + status + ")"
+							if !seen[key] {
+								seen[key] = true
+								out[m.Name] = append(out[m.Name], key)
+							}
+						}
+					}
+				}
+			}
+		}
+		sort.Strings(out[m.Name])
+	}
+	return out
 }
